@@ -11,6 +11,7 @@ package main
 
 import (
 	"fmt"
+	"runtime/debug"
 	"sort"
 	"strings"
 	"sync"
@@ -346,6 +347,9 @@ func (ck *checker) faultCase(h *history, sh shape, snaps []snapshot, si, k int, 
 	if out == sim.CrashBefore || out == sim.CrashAfter {
 		if r.crashed {
 			c.Count("crash_positions_covered", 1)
+			if !strings.HasPrefix(h.Name, "rand-") {
+				c.Count("crash_positions_covered_base_histories", 1)
+			}
 		}
 	}
 	ck.countExec(x)
@@ -367,7 +371,7 @@ type unit struct {
 
 func main() {
 	c := kit.New("C14", "fault_enumeration")
-	c.Rule = "histories of user edits to one Package (Provider, Configuration, Function): source/tag changes incl. rollbacks to earlier digests, revisionHistoryLimit changes (0, raising, lowering, also in the same edit as a source change), activation policy Automatic/Manual with manual activation by the user, pull policy IfNotPresent/Always/Never, the registry moving a tag to another (also an earlier) digest, registry failures, the revision controller flipping revision health; after each edit the real reconciler runs until a reconcile writes nothing (bound 6, sometimes 1-2: the next edit lands early). 9 fixed base histories x 3 kinds: for every reconcile of the fault-free run EVERY API-call index x 6 outcomes (conflict, 500, timeout, crash-before, crash-after, applied-but-504), then fault-free retries to quiescence and the rest of the history; seeded random histories get the same treatment (quick: a sample of fault positions). distinct = (history, reconcile, call, outcome); non-trivial = the fault-free run of the history resolved >= 2 digests and contains a rollback or a history-limit change, and the fault was reached. Avoided inputs: unset spec fields (the CRD defaults them), image references sharing their first 12 characters under pull policy Never, digests sharing their first 12 hex characters, paused packages, revisions with finalizers."
+	c.Rule = "histories of user edits to one Package (Provider, Configuration, Function): source/tag changes incl. rollbacks to earlier digests, revisionHistoryLimit changes (0, raising, lowering, also in the same edit as a source change), activation policy Automatic/Manual with manual activation by the user, pull policy IfNotPresent/Always/Never, the registry moving a tag to another (also an earlier) digest, registry failures, the revision controller flipping revision health; after each edit the real reconciler runs until a reconcile writes nothing (bound 6, sometimes 1-2: the next edit lands early). 9 fixed base histories (quick: all 9 for Provider, one each for Configuration and Function, whose reconciler is the same code; thorough: 9 x 3 kinds): for every reconcile of the fault-free run EVERY API-call index x 6 outcomes (conflict, 500, timeout, crash-before, crash-after, applied-but-504), then fault-free retries to quiescence and the rest of the history; seeded random histories of all three kinds get the same treatment on a seeded sample of fault positions per reconcile. distinct = (history, reconcile, call, outcome); non-trivial = the fault-free run of the history resolved >= 2 digests and contains a rollback or a history-limit change, and the fault was reached. Avoided inputs: unset spec fields (the CRD defaults them), image references sharing their first 12 characters under pull policy Never, digests sharing their first 12 hex characters, paused packages, revisions with finalizers."
 	c.Assumptions = []string{
 		"sim implements the apiserver rules of DESIGN.md 2.2; reads are linearizable (no stale informer cache)",
 		"one package-manager worker per package; user edits land between reconciles, never inside one",
@@ -378,9 +382,10 @@ func main() {
 	c.Floor = 300
 	ck := &checker{c: c}
 
-	hs := baseHistories()
+	debug.SetGCPercent(400)
+	hs := baseHistories(c.Thorough())
 	nBase := len(hs)
-	nRand := c.N(30, 240)
+	nRand := c.N(24, 100)
 	for i := 0; i < nRand; i++ {
 		hs = append(hs, randomHistory(c.Rng("history", i), i))
 	}
@@ -422,11 +427,14 @@ func main() {
 
 	// phase B: fault enumeration, one unit per (history, reconcile)
 	var units []unit
-	var crashTotal int64
-	randSample := c.N(4, 0) // quick: 4 (call, outcome) pairs per reconcile of a random history; thorough: all
+	var crashTotal, crashBase int64
+	randSample := c.N(3, 10) // (call, outcome) pairs drawn per reconcile of a random history
 	for i := range hs {
 		for si := range ff[i].snaps {
 			crashTotal += int64(2 * ff[i].snaps[si].calls)
+			if i < nBase {
+				crashBase += int64(2 * ff[i].snaps[si].calls)
+			}
 			u := unit{h: &hs[i], sh: ff[i].sh, snaps: ff[i].snaps, si: si, rngIdx: i*1000 + si}
 			if i >= nBase {
 				u.sample = randSample
@@ -435,6 +443,7 @@ func main() {
 		}
 	}
 	c.Count("crash_positions_total", crashTotal)
+	c.Count("crash_positions_total_base_histories", crashBase)
 	{
 		var wg sync.WaitGroup
 		ch := make(chan unit)
@@ -481,10 +490,6 @@ func main() {
 	sort.Strings(names)
 	c.Extra("base_histories", names)
 	c.Extra("random_histories", nRand)
-	if randSample == 0 {
-		c.Extra("fault_positions_per_random_reconcile", "all")
-	} else {
-		c.Extra("fault_positions_per_random_reconcile", randSample)
-	}
+	c.Extra("fault_positions_per_random_reconcile", randSample)
 	c.Finish()
 }
